@@ -432,8 +432,8 @@ func buildPool(g simkit.G) *pool {
 		p.track = append(p.track, tracked{fmt.Sprintf("scale.Log logs[%d] fields", i), func() bool { return *l == snap }})
 	}
 	// ---- knobs ----
-	p.knobEL = []int{50, 0, 6, 200}[g.Intn(4)]
-	p.knobTL = []int{25, 0, 8, 12}[g.Intn(4)]
+	p.knobEL = []int{50, 0, 6, 200, 1, -1, 1 << 30}[g.Intn(7)]
+	p.knobTL = []int{25, 0, 8, 12, 1, -1}[g.Intn(6)]
 
 	// ---- derived shared result objects (sequential, before the snapshot is relied on) ----
 	p.loess = fit.LOESS(p.fl[2], p.fl[3], 1+g.Intn(2), 0.75)
